@@ -91,7 +91,8 @@ def _angle_deg(p, q):
 class Source:
     """oracle tables of a mesh + the values a FRESH source grid reports (never sliced, so free of history)"""
 
-    def __init__(self, m):
+    def __init__(self, m, edge_node_connectivity=None):
+        """edge_node_connectivity: the edge table the source SHIPS (its numbering is then the source's edge numbering)"""
         self.m = m
         self.lon, self.lat, self.faces = m["lon"], m["lat"], m["faces"]
         self.nf, self.nn = m["n_face"], m["n_node"]
@@ -104,8 +105,12 @@ class Source:
             self.face_set_key.setdefault(frozenset(self.pos[v] for v in c), f)
         self.node_at = {p: i for i, p in enumerate(self.pos)}
         self.pairs = [mg.edge_pairs_of_face(self.faces[f]) for f in range(self.nf)]
-        self.ref = grid_of(m)
-        en = self.ref.edge_node_connectivity.values
+        if edge_node_connectivity is None:
+            self.ref = grid_of(m)
+            en = self.ref.edge_node_connectivity.values
+        else:
+            self.ref = grid_of(m, edge_node_connectivity=np.array(edge_node_connectivity))
+            en = np.asarray(edge_node_connectivity)
         self.edges = [tuple(sorted((int(a), int(b)))) for a, b in en]          # the source's own edge numbering
         self.ne = len(self.edges)
         if set(self.edges) != mg.edge_set(self.faces) or len(set(self.edges)) != self.ne:
@@ -784,7 +789,7 @@ def _shipped_edges(ck, rng):
     es = sorted(mg.edge_set(m["faces"]))
     rng.shuffle(es)
     en = np.array([[b, a] if i % 2 else [a, b] for i, (a, b) in enumerate(es)], dtype=np.int64)
-    src = Source(m)
+    src = Source(m, edge_node_connectivity=en)      # recorded edge indices / edge quantities refer to the SHIPPED numbering
     for idx in ([3, 0], [2]):
         ck.cases += 1
         ck.distinct.add(("shipped_edges", tuple(idx)))
@@ -865,7 +870,14 @@ def _shipped_tables(src):
 def _pre_histories(src, tier):
     """(name, attributes read on the source before slicing, tables shipped with the source)"""
     out = [("none", [], [])]
-    out += [(a, [a], []) for a in DERIVED if src.ref_value(a)[0] == "ok" and (a != "bounds" or _READY["jit"])]
+    # index tables and sizes each alone; coordinates of one element kind together (they are built by one routine)
+    groups = [(a, [a]) for a in CONN + ONLY_COMPUTABLE] + [
+        ("node_xyz", BY_NODE), ("edge_centres", ["edge_lon", "edge_lat", "edge_x", "edge_y", "edge_z"]),
+        ("edge_node_distances", ["edge_node_distances"]), ("edge_node_z", ["edge_node_z"]),
+        ("face_centres", ["face_lon", "face_lat", "face_x", "face_y", "face_z"]), ("face_areas", ["face_areas"])] + (
+        [("bounds", ["bounds"])] if _READY["jit"] else [])
+    out += [(n, [a for a in attrs if src.ref_value(a)[0] == "ok"], []) for n, attrs in groups]
+    out = [h for h in out if h[0] == "none" or h[1]]
     out.append(("all", [a for a in DERIVED if a != "bounds" or _READY["jit"]], []))
     if src.edges_ok and all(len(v) <= 2 for v in src.faces_of_pair.values()):
         out += [("shipped_" + t, [], [t]) for t in SHIPPABLE]
@@ -1082,6 +1094,9 @@ def _prematerialised(ck, tier, seed):
                 isel3 = route in ("Grid.isel_n_face", "Grid.isel_n_node", "UxDataArray.isel_n_face")
                 if tier == "quick" and route != "Grid.isel_n_face" and hist[0] not in ("all", "shipped_all") and not (
                         isel3 and (hist[0] == "none" or hist[0] in CONN)):
+                    continue
+                if tier == "quick" and hist[0] == "shipped_all" and not isel3 and not (
+                        route.endswith(":nodes") or route in ("Grid.isel_n_edge", "Grid.constant_latitude")):
                     continue
                 if tier != "quick" and m is not meshes[0] and not isel3 and hist[0] not in ("none", "all", "shipped_all"):
                     continue
